@@ -1,4 +1,4 @@
 (* Extraction of the cluster-module model for the correspondence driver (ExtrOcamlBasic only). *)
 From Burrow Require Import ClusterMod.
 Require Import ExtrOcamlBasic.
-Extraction "model.ml" init_state env_of_tables run cycle tick run_s received_updates received_deletes prompt.
+Extraction "model.ml" init_state env_of_tables run cycle tick run_s received_updates received_deletes prompt xrun xenv_of_tables.
